@@ -268,3 +268,19 @@ def c02_7(ctx, r):
         n += 1
         r.check(fn.short in allowed, f"Job.blocked_by written ({kind}) in {fn.short}", key_of(fn, f"{kind} Job.blocked_by"), fn.loc(node),
                 f"{fn.short} writes the persisted remaining-blockers set; only {list(allowed)} may")
+
+
+@rule(P, "C02.8", "T3", "a job that returns to not_submitted (resubmission) gets its remaining blockers restored", min_obligations=1)
+def c02_8(ctx, r):
+    from .c13 import reset_restores_blockers
+
+    pf = ctx.ix.try_func("Cluster._prepare_for_resubmission") or ctx.fn("Cluster.prepare_for_resubmission", "C02.8")
+    ctx.counters["functions"].add(pf.qual)
+    reset_restores_blockers(ctx, r, pf)
+
+
+@rule(P, "C02.9", "T3", "an entry whose blockers were emptied by a cancel leaves the queue before the next poll can start it", min_obligations=6)
+def c02_9(ctx, r):
+    from .c01 import c01_7
+
+    c01_7(ctx, r)
